@@ -9,6 +9,14 @@ CLAIMED = {
   "The property as a whole (output equality over an unbounded family of programs) is not statically decidable here; eleven mechanism clauses that are necessary conditions of it are decided: scope push/pop pairing by node kind in cfg, fresh slot allocation by every closure generated for ':=', the three per-iteration loop-variable generators and their unconditional installation, completeness of the AST copier used for generics against the AST builder, operator/generator agreement (shared with C02), evaluation of all sources of a multiple assignment and of all operands of a multi-value return before any destination is written, the result of an expression stored on every path of its run-time closure (no stale slot), byte offsets for both forms of range over a string, no store through the slot index of a blank range value, and the 'i := i' loop-variable shortcut testing its source operand. CFG wiring, frame-index computation, most skip-assign optimisations and value semantics - the main content of the property - are NOT decided.",
   "Defects D14, D23 (return generator), D28-D32 were found through R01.6-R01.11 and repaired ('fix:' commits).",
   "sibling/pairing lints over the typed syntax tree (custom go/types analyzer)", "DESIGN.md §2 C01"),
+ "C04": ("other",
+  "Structural necessary conditions of the copying half of 'copied or shared exactly as Go prescribes': the places where the interpreter must detach a value do so on every path - temporaries of a multiple assignment and of a multi-value return, fresh slots for the arguments and receivers of every activation, per-evaluation allocation of composite values (no run-time closure writes or reflect-sets a value captured from its generator), the detached copy a range statement iterates over, no frame slot rebound to the plain result of a value generator, a clone of the frame for every closure value, and an expression's result stored on every path (a missed map lookup yields the zero value). What a reflect.Value aliases at run time (Index/Field views), and append/copy/slicing (delegated to reflect), are NOT decided: the property's quantifier over operation histories is not reached by this check.",
+  "Most clauses are the same analyses as clauses of C01/C05/C08/C11, reported under R04.x; R04.5 (range shadow copy) and R04.8 (slot never bound to a generator result) are specific. Frozen exceptions: the result slots of an interpreted call, the hidden slots of range statements.",
+  "def-use/ownership lints over run-time closures (captured-write rule, slot-binding rule) + go/cfg path rules", "DESIGN.md section 2 C04"),
+ "C07": ("other",
+  "Structural necessary conditions of the two call bridges: every variant of the compiled-call generator builds a fresh argument vector inside the run-time closure and fills it completely, in order, through the one wrapping helper; the reflect.MakeFunc bridge of an interpreted function stores every incoming argument, runs the body and returns exactly the result slots; activation frames get fresh slots; results of a compiled call in a return statement go to the allotted slot; Use never aliases the caller's Exports map; the wrapper for an interpreted value handed to compiled code is chosen on its full method set. Whether a particular value survives reflection across the boundary (interfaces, func-typed values, zero values, variadic packing) is NOT decided.",
+  "Sibling agreement of the six callBin variants is the specific clause; the others are shared analyses of C02/C05/C13.",
+  "sibling cross-check of the call-bridge variants + shared ownership lints (custom go/types analyzer)", "DESIGN.md section 2 C07"),
  "C05": ("other",
   "One table-agreement clause of 'interpreted values handed to compiled code have their interpreted methods invoked': every key of stdlib.MapTypes denotes the function value actually bound (default binding, or fixStdlib override re-keyed from it), every re-keying reads an existing key, and every bound ...interface{} function of a keyed package is keyed; plus two structural clauses of 'sees the same receiver state' and of method-set shadowing: the slots of every frame created for an activation are bound only to fresh storage (receivers and arguments are copied in), and in the method-set computation a type's own methods take precedence over promoted ones. Method resolution, dynamic dispatch, type assertions and type switches depend on run-time valueInterface contents and are NOT decided (four seeded changes of that kind are not detected).",
   "Defects K6/D13 (log.Fatal*, log.Print*, fmt.Sscan*/Fscan*/Append* not wrapped) were found by this rule and repaired.",
@@ -82,8 +90,6 @@ CLAIMED = {
 }
 
 NOT_APPLICABLE = {
- "C04": "aliasing vs copying of reflect.Values is a run-time fact of how each value was obtained; no structural necessary condition that a test-surviving change could break was found (DESIGN.md §2 C04)",
- "C07": "argument/result transport across the host boundary is per-value reflection over run-time shapes; nothing to pair, order, own or tabulate statically (DESIGN.md §2 C07)",
 }
 
 PENDING = "check not built yet in this revision (designed in DESIGN.md §2; it will be claimed once its rules are implemented)"
